@@ -151,7 +151,11 @@ where
                     shadow.insert(*k, tok);
                 }
                 if matches!(op, KOp::Remove(..)) {
-                    shadow.remove(k);
+                    // 2Q / ARC: a key that was not resident may be a ghost; whether remove()
+                    // forgets a ghost is not specified, so it stays "possibly retained"
+                    if r.is_some() || !matches!(case.kind, Kind::TwoQ | Kind::Arc) {
+                        shadow.remove(k);
+                    }
                     if c.contains(q) || c.contains(o.borrow()) {
                         return Err(v(i, "removed-still-resident", format!("{what}: the key is still reported resident")));
                     }
